@@ -9,6 +9,7 @@ mod nodes;
 mod s_registry;
 mod s_retain;
 mod s_json;
+mod s_build;
 
 #[global_allocator]
 static GLOBAL: alloc::Counting = alloc::Counting;
@@ -110,6 +111,7 @@ fn main() {
         "registry" => s_registry::registry(&mut rng, n, thorough, &mut out),
         "retain" => s_retain::retain(&mut rng, n, thorough, &mut out),
         "json" => s_json::json_stream(&mut rng, n, thorough, &mut out),
+        "build" => s_build::build(&mut rng, n, thorough, &mut out),
         s => {
             eprintln!("unknown stream {s}");
             std::process::exit(2)
